@@ -323,7 +323,9 @@ pub fn run(ctx: &Ctx) {
     clear_field_history(ctx);
     if !crate::lib_only() {
         cli_block(ctx);
+        crate::ttylanes::c08_no_controlling_terminal(ctx);
     }
+    ctx.require("no controlling terminal", 2);
     ctx.require("key mode: scan + length law + identity swap ok", 50);
     ctx.require("password mode: length law", 10);
     ctx.require("cli: scan + length law ok", 5);
